@@ -35,7 +35,31 @@ def run(prog, an, rep):
     rep.run_rules(prog, an, [
         build_gate, outcome, recursive_lookup_literals, lookup_args,
         process_selection, force_merge_wiring, is_needed_rules,
-        merge_queues_args])
+        merge_queues_args, nothing_moves_without_selection])
+
+
+def nothing_moves_without_selection(prog, an, rep):
+    """handle_merge_queues merges only when some pull request is mergeable
+    (an empty selection ends the job before merge_queues and the push)."""
+    R = 'C03.MPT.empty-selection'
+    f = need_func(an, GWF + '.queueing.handle_merge_queues')
+    c = an.cfg(f)
+    some = an.branch_nodes(
+        f, lambda e: src(e).endswith('.mergeable_prs') and
+        isinstance(e, ast.Attribute), True)
+    targets = an.target_nodes(f, Spec.func(GWF + '.queueing.merge_queues'),
+                              depth=0) + \
+        an.target_nodes(f, Spec.func('bert_e.workflow.git_utils.push'),
+                        depth=0)
+    rep.floor('C03 merge/push sites in handle_merge_queues', len(targets), 2)
+    for t in targets:
+        rep.evaluated()
+        ok, path = c.must_pass(some, t.id)
+        rep.check(ok and bool(some), R, f.qname + ': `%s` only when the '
+                  'mergeable set is not empty' % src(t.ast)[:30],
+                  f.where(t), 'destinations can be merged / pushed although '
+                  'no queued pull request is mergeable',
+                  path=c.describe_path(path))
 
 
 def build_gate(prog, an, rep):
